@@ -11,6 +11,7 @@ import (
 	"encoding/hex"
 	"fmt"
 	"sort"
+	"time"
 
 	"github.com/elastos/Elastos.ELA/blockchain"
 	"github.com/elastos/Elastos.ELA/common"
@@ -45,6 +46,7 @@ type Cfg struct {
 	Lockup, PropCRVote, PropPubVote          int
 	VotingStart, CommitteeStart, MaxTracking int
 	RejectThreshold                          int
+	WithdrawV1Height                         int // CRCProposalWithdrawPayloadV1Height: withdrawals below it carry payload version 0
 	DupRule                                  bool
 	Preambles                                map[string][][]Tx
 }
@@ -84,6 +86,9 @@ type Env struct {
 	assets   common.Uint168
 	expenses common.Uint168
 	nonce    uint64
+	// what the chain's UTXO set holds on the CR assets address once the block is saved (the
+	// node's CreateCRCAppropriationTransaction reads it when the committee changes)
+	assetsOf map[*types.Block]common.Fixed64
 }
 
 func pubBytes(k *stack.Key) []byte {
@@ -108,7 +113,7 @@ func newCRKey(seed uint64) *crKey {
 
 func NewEnv(cfg Cfg) *Env {
 	stack.InitGlobals()
-	e := &Env{cfg: cfg}
+	e := &Env{cfg: cfg, assetsOf: map[*types.Block]common.Fixed64{}}
 	p := config.GetDefaultParams()
 	p.DPoSV2StartHeight = 0
 	cr := &p.CRConfiguration
@@ -123,7 +128,9 @@ func NewEnv(cfg Cfg) *Env {
 	cr.ProposalCRVotingPeriod = uint32(cfg.PropCRVote)
 	cr.ProposalPublicVotingPeriod = uint32(cfg.PropPubVote)
 	cr.MaxProposalTrackingCount = uint8(cfg.MaxTracking)
-	cr.CRCProposalWithdrawPayloadV1Height = 0
+	cr.CRCProposalWithdrawPayloadV1Height = uint32(cfg.WithdrawV1Height)
+	// blocks and rollbacks go through the checkpoint manager (as in the node); nothing is written to disk
+	p.CheckPointConfiguration.NeedSave = false
 	cr.CRCProposalV1Height = 0
 	cr.CRCProposalDraftDataStartHeight = 0
 	cr.ChangeCommitteeNewCRHeight = 0
@@ -172,6 +179,7 @@ type Inst struct {
 	ckp    *checkpoint.Manager
 	height uint32
 	tip    uint32 // what GetHeight() answers: the height of the block being processed
+	assets common.Fixed64 // unspent outputs of the CR assets address, the block being processed included
 }
 
 func (e *Env) NewInst() *Inst {
@@ -183,6 +191,17 @@ func (e *Env) NewInst() *Inst {
 			return map[*common2.Input]common2.Output{}, nil
 		},
 		GetHeight: func() uint32 { return in.tip },
+		// blockchain.CreateCRCAppropriationTransaction: no transaction when 10 % of what the CR assets
+		// address holds is nothing (the committee then drops NeedAppropriation again, through the
+		// appropriation history); no locked outputs here
+		CreateCRAppropriationTransaction: func() (interfaces.Transaction, common.Fixed64, error) {
+			amount := common.Fixed64(float64(in.assets) * e.params.CRConfiguration.CRCAppropriatePercentage / 100.0)
+			if amount <= 0 {
+				return nil, 0, nil
+			}
+			return functions.CreateTransaction(common2.TxVersion09, common2.CRCAppropriation, 0, &payload.CRCAppropriation{},
+				[]*common2.Attribute{}, []*common2.Input{}, []*common2.Output{out(e.expenses, amount)}, 0, []*pg.Program{}), 0, nil
+		},
 	})
 	// the checkers of the proposal transaction family read nothing but the
 	// committee through TransactionParameters.BlockChain
@@ -191,6 +210,9 @@ func (e *Env) NewInst() *Inst {
 	return in
 }
 
+// Process hands the block to the committee the way the chain does after it has
+// saved a block: checkpoint.Manager.OnBlockSaved -> (start height / checkpoint
+// height filters) -> cr Checkpoint.OnBlockSaved -> Committee.ProcessBlock.
 func (in *Inst) Process(b *types.Block) (pan interface{}) {
 	defer func() {
 		if r := recover(); r != nil {
@@ -198,24 +220,66 @@ func (in *Inst) Process(b *types.Block) (pan interface{}) {
 		}
 	}()
 	in.tip = b.Height
-	in.comm.ProcessBlock(b, nil)
+	in.assets = in.env.assetsOf[b]
+	in.ckp.OnBlockSaved(&types.DposBlock{Block: b}, nil, false, 0, false)
 	in.height = b.Height
 	return nil
 }
 
-func (in *Inst) Rollback(t uint32) (pan interface{}) {
-	defer func() {
-		if r := recover(); r != nil {
-			pan = r
+// Rollback takes the committee back to height t the way the chain does when it
+// disconnects blocks (blockchain.ReorganizeChain): one
+// checkpoint.Manager.OnRollbackTo(block.Height-1) per disconnected block, tip
+// first, which reaches cr Checkpoint.OnRollbackTo (reset below
+// CRVotingStartHeight, Committee.RollbackTo otherwise).  With oneCall the
+// manager is asked for t directly (a jump over several heights: the loop of
+// Committee.RollbackTo); that form is used for targets from CRVotingStartHeight
+// on only, the node itself never jumps.
+func (in *Inst) Rollback(t uint32, oneCall bool) (pan interface{}) {
+	// a rollback that does not come back (Committee.RollbackTo(0) is such a call: uint32 loop bound; the
+	// checkpoint keeps the node away from it) must not hang the driver: it is reported and the run ends
+	done := make(chan interface{}, 1)
+	go func() {
+		defer func() {
+			if r := recover(); r != nil {
+				done <- r
+			}
+		}()
+		if oneCall && t >= in.env.params.CRConfiguration.CRVotingStartHeight {
+			if err := in.ckp.OnRollbackTo(t, false); err != nil {
+				done <- err
+				return
+			}
+		} else {
+			for x := in.height; x > t; x-- {
+				if err := in.ckp.OnRollbackTo(x-1, false); err != nil {
+					done <- err
+					return
+				}
+			}
 		}
+		done <- nil
 	}()
-	if err := in.comm.RollbackTo(t); err != nil {
-		return err
+	select {
+	case pan = <-done:
+		if pan != nil {
+			return pan
+		}
+	case <-time.After(hangAfter):
+		return hung{fmt.Sprintf("the rollback from %d to %d has not returned after %s", in.height, t, hangAfter)}
 	}
 	in.height = t
 	in.tip = t
 	return nil
 }
+
+// hung is what Rollback answers for a call that does not return; the committee
+// (its mutex is held) cannot be used any more.
+type hung struct{ what string }
+
+const hangAfter = 120 * time.Second
+
+// onHang ends the run in an orderly way (set by main: summary, flush, exit).
+var onHang = func() {}
 
 // ---------------------------------------------------------------------------
 // what a wallet / the chain knows besides the committee: unspent outputs of the
@@ -410,7 +474,38 @@ func (e *Env) Build(in *Inst, led *ledger, a Tx, h uint32) (*builtTx, error) {
 		if ps == nil {
 			return nil, fmt.Errorf("Withdraw: proposal %d unknown to the real committee", a.P)
 		}
-		bt.tx = e.withdrawTx(ps.Proposal.Hash, ps.Recipient, a.O, common.Fixed64(a.N)*ELA)
+		amount := common.Fixed64(a.N) * ELA
+		// the payload version the height asks for (X = "otherVersion": the one it refuses, for probes)
+		legacy := h < e.params.CRConfiguration.CRCProposalWithdrawPayloadV1Height
+		if a.X == "otherVersion" {
+			legacy = !legacy
+		}
+		if legacy {
+			// payload version 0: the transaction spends outputs of the CR expenses
+			// address itself (recipient first, change back to the address)
+			var ins []*common2.Input
+			var got common.Fixed64
+			for _, u := range led.expenses {
+				if got >= amount {
+					break
+				}
+				i := &common2.Input{Previous: u.op}
+				ins = append(ins, i)
+				bt.refs[i] = *out(e.expenses, u.val)
+				got += u.val
+			}
+			if got < amount {
+				return nil, fmt.Errorf("Withdraw (payload v0): expenses address holds %s, %s wanted", got, amount)
+			}
+			fee := e.params.MinTransactionFee
+			outs := []*common2.Output{out(ps.Recipient, amount-fee)}
+			if got > amount {
+				outs = append(outs, out(e.expenses, got-amount))
+			}
+			bt.tx = e.withdrawTxV0(ps.Proposal.Hash, a.O, ins, outs)
+			break
+		}
+		bt.tx = e.withdrawTx(ps.Proposal.Hash, ps.Recipient, a.O, amount)
 		i, o := e.feeInput(e.owners[a.O].Hash, 1000)
 		bt.refs[i] = o
 		bt.tx.SetInputs([]*common2.Input{i})
@@ -582,6 +677,17 @@ func (e *Env) withdrawTx(hash common.Uint256, recipient common.Uint168, o int, a
 		[]*pg.Program{{Code: owner.Code, Parameter: []byte{}}})
 }
 
+// withdrawTxV0: CRCProposalWithdraw with the default payload version (proposal
+// hash, owner key, signature; no recipient / amount, no programs).
+func (e *Env) withdrawTxV0(hash common.Uint256, o int, ins []*common2.Input, outs []*common2.Output) interfaces.Transaction {
+	owner := e.owners[o]
+	pl := &payload.CRCProposalWithdraw{ProposalHash: hash, OwnerKey: owner.pub}
+	buf := new(bytes.Buffer)
+	pl.SerializeUnsigned(buf, payload.CRCProposalWithdrawDefault)
+	pl.Signature = sign(owner, buf.Bytes())
+	return e.mk(common2.CRCProposalWithdraw, payload.CRCProposalWithdrawDefault, pl, ins, outs, nil)
+}
+
 // Check runs the real SpecialContextCheck of a transaction of the proposal
 // family against the instance's committee (the state before the block).
 func (in *Inst) Check(bt *builtTx, h uint32, inBlock common.Fixed64) (err error, checked bool) {
@@ -600,6 +706,12 @@ func (in *Inst) Check(bt *builtTx, h uint32, inBlock common.Fixed64) (err error,
 	bt.tx.SetParameters(&transaction.TransactionParameters{Transaction: bt.tx, BlockHeight: h, TimeStamp: 0,
 		Config: in.env.params, BlockChain: in.bc, ProposalsUsedAmount: inBlock})
 	bt.tx.SetReferences(bt.refs)
+	if bt.tx.TxType() == common2.CRCProposalWithdraw {
+		// which payload version a height admits is decided before the context check
+		if herr := bt.tx.HeightVersionCheck(); herr != nil {
+			return herr, true
+		}
+	}
 	e, _ := bt.tx.SpecialContextCheck()
 	if e != nil {
 		return e, true
